@@ -53,7 +53,10 @@ class OutcomePlan:
             return self.overrides[key]
         if key in self.cache:
             return self.cache[key]
-        t = self.prog.tasks[name]
+        t = self.prog.tasks.get(name)
+        if t is None:
+            # a task added by a reloaded definition: plain success
+            return [{'submit': True, 'final': 'succeeded', 'outputs': []}]
         rng = random.Random(derive_seed(self.seed, 'plan', name, p))
         out = []
         s = 0
